@@ -12,7 +12,9 @@ Example tie_C06_remap :
   /\ Src.h_util_tensor_transpose = Expected.h_util_tensor_transpose
   /\ Src.h_util__parse_dims_arg = Expected.h_util__parse_dims_arg
   /\ Src.h_basis_remap_pauli_basis_elements = Expected.h_basis_remap_pauli_basis_elements
-  /\ Src.h_basis_Basis_pauli = Expected.h_basis_Basis_pauli.
+  /\ Src.h_basis_Basis_pauli = Expected.h_basis_Basis_pauli
+  /\ raises_pulse_sequence__map_identifiers =
+     [("ValueError", "except KeyError"); ("ValueError", "len(set(remapped_identifiers)) != len(remapped_identifiers)")].
 Proof. repeat split; reflexivity. Qed.
 
 Example tie_C06_cache_methods :
